@@ -874,6 +874,14 @@ impl Hooks for H {
                 let l = st.locs[li].lockvc.clone();
                 vjoin(&mut st.th[me].vc, &l);
             }
+            OpKind::MutexTryLock => {
+                // never blocks; when it took the lock it counts as an acquisition from here on
+                if ok {
+                    st.locs[li].lock.writer = Some(me);
+                    let l = st.locs[li].lockvc.clone();
+                    vjoin(&mut st.th[me].vc, &l);
+                }
+            }
             OpKind::MutexUnlock | OpKind::RwWriteUnlock => {
                 let c = st.th[me].vc.clone();
                 st.locs[li].lockvc = c;
@@ -926,7 +934,7 @@ impl Hooks for H {
         }
         // ---------- conflict signature
         let modifying = rmw_ok || op.kind == OpKind::Store;
-        let lock_excl = matches!(op.kind, OpKind::MutexLock | OpKind::RwWriteLock);
+        let lock_excl = matches!(op.kind, OpKind::MutexLock | OpKind::RwWriteLock) || (op.kind == OpKind::MutexTryLock && ok);
         if modifying || lock_excl {
             let class = if matches!(op.kind, OpKind::Swap | OpKind::Store) { 2 } else { 1 };
             let l = &mut st.locs[li];
